@@ -10,46 +10,10 @@ import DnsProofs.C03Valid
 import DnsProofs.C01Opt
 import DnsProofs.C05Hex
 import DnsProofs.C05Ip
+import DnsProofs.C05Itoa
+import DnsProofs.C05Types
 namespace Dns.C05X
 open Dns Dns.Lex Dns.TxtParse Dns.TextCodec Dns.C07 Dns.C06T Dns.C05L Dns.C05T Dns.C03 Dns.C05H
-
-/-! ### decimal numbers -/
-
-theorem foldl_dec_append (a : Bytes) (b : Byte) (acc : Nat) :
-    (a ++ [b]).foldl (fun x y => x * 10 + (y.toNat - 48)) acc = (a.foldl (fun x y => x * 10 + (y.toNat - 48)) acc) * 10 + (b.toNat - 48) := by
-  simp [List.foldl_append]
-
-theorem digit_byte (d : Nat) (h : d < 10) : (UInt8.ofNat (48 + d)).toNat = 48 + d ∧ isDig (UInt8.ofNat (48 + d)) = true := by
-  have : (UInt8.ofNat (48 + d)).toNat = 48 + d := by simp [UInt8.toNat_ofNat']; omega
-  exact ⟨this, by simp [isDig, this]; omega⟩
-
-/-- `itoaAux` prepends the digits of `n` -/
-theorem itoaAux_spec (fuel n : Nat) (acc : Bytes) (hf : n < fuel) :
-    ∃ ds, itoaAux fuel n acc = ds ++ acc ∧ ds ≠ [] ∧ ds.all isDig = true ∧ decVal ds = n := by
-  induction fuel generalizing n acc with
-  | zero => omega
-  | succ f ih =>
-    unfold itoaAux
-    by_cases h10 : n < 10
-    · obtain ⟨h1, h2⟩ := digit_byte n h10
-      refine ⟨[UInt8.ofNat (48 + n)], by simp only [h10, ↓reduceIte, List.singleton_append], by simp,
-        by simp only [List.all_cons, List.all_nil, Bool.and_true]; exact h2, ?_⟩
-      simp only [decVal, List.foldl_cons, List.foldl_nil, h1]
-      omega
-    · simp only [h10, ↓reduceIte]
-      obtain ⟨h1, h2⟩ := digit_byte (n % 10) (Nat.mod_lt _ (by omega))
-      obtain ⟨ds, e, hne, hall, hv⟩ := ih (n / 10) (UInt8.ofNat (48 + n % 10) :: acc) (by omega)
-      refine ⟨ds ++ [UInt8.ofNat (48 + n % 10)], by rw [e]; simp only [List.append_assoc, List.singleton_append], by simp,
-        by rw [List.all_append, hall]; simp only [List.all_cons, List.all_nil, Bool.and_true, Bool.true_and]; exact h2, ?_⟩
-      unfold decVal at hv ⊢
-      rw [foldl_dec_append, hv, h1]
-      omega
-
-theorem itoa_spec (n : Nat) : Digits (itoa n) ∧ decVal (itoa n) = n := by
-  obtain ⟨ds, e, hne, hall, hv⟩ := itoaAux_spec (n + 1) n [] (by omega)
-  unfold itoa
-  rw [e, List.append_nil]
-  exact ⟨⟨hne, hall⟩, hv⟩
 
 theorem parseUintN_digits (bits : Nat) (ds : Bytes) (hd : Digits ds) (hv : decVal ds < 2 ^ bits) :
     parseUintN bits ds = some (decVal ds) := by
@@ -217,6 +181,7 @@ theorem sprintName_present (ls : List Bytes) : sprintName (presentOf ls) = prese
 def kindEq : TStep → TStep → Bool
   | .uint a, .uint b => a == b
   | .uint a, .uintAlg => a == 8
+  | .uint a, .uintLax b => a == b
   | .uint a, .uintTtl _ => a == 32
   | .name, .name => true
   | .endStr false, .tokStr => true
@@ -238,6 +203,7 @@ def matchPlans : List TStep → List TStep → Bool
   | [.endStr _], [.tok, .slurp] => true
   | [p], [q, .slurp] => kindEq p q
   | [p, .blank, .endStr _], [q, .endStr _] => kindEq p q
+  | [p, .typeList], [q, .typeList] => kindEq p q
   | p :: .blank :: P, q :: .blank :: Q => kindEq p q && matchPlans P Q
   | _, _ => false
 
@@ -248,6 +214,7 @@ def RestWF' (t : Bytes) : Prop := t ≠ [] ∧ t.all plain = true
 def FieldWF : TStep → TVal → Prop
   | .uint bits, .n v => v < 2 ^ bits
   | .uintAlg, .n v => v < 2 ^ 8
+  | .uintLax bits, .n v => v < 2 ^ bits
   | .uintTtl _, .n v => v < 2 ^ 32
   | .name, .s t => ∃ ls, WireNameOK ls ∧ t = presentOf ls
   | .tokStr, .s t => RestWF' t
@@ -295,6 +262,14 @@ theorem field_word (p q : TStep) (v : TVal) (hk : kindEq p q = true) (hw : Field
     intro t ts Q acc ht he _hval
     simp only [parsePlan, headTok, ht, parseUintN_digits bits (itoa n) hd (by rw [hv]; exact hw), hv, he, Bool.false_eq_true,
       ↓reduceIte, List.tail_cons]
+  case uint.uintLax b1 bits =>
+    cases v <;> simp only [FieldWF] at hw
+    rename_i n
+    obtain ⟨hd, hv⟩ := itoa_spec n
+    simp only [beq_iff_eq] at hk
+    refine ⟨itoa n, fun vs => rfl, digits_word _ hd, ?_⟩
+    intro t ts Q acc ht he _hval
+    simp only [parsePlan, headTok, ht, parseUintN_digits bits (itoa n) hd (by rw [hv]; exact hw), hv, List.tail_cons]
   case uint.uintAlg b1 =>
     cases v <;> simp only [FieldWF] at hw
     rename_i n
@@ -411,6 +386,8 @@ inductive Fits : List TStep → List TStep → List TVal → List TVal → Prop
   | last (p q : TStep) (v : TVal) (hk : kindEq p q = true) (hw : FieldWF q v) : Fits [p] [q, .slurp] [v] [v]
   | lastRest (p q : TStep) (v : TVal) (u u' : Bool) (t : Bytes) (hk : kindEq p q = true) (hw : FieldWF q v) (ht : RestWF t) :
       Fits [p, .blank, .endStr u] [q, .endStr u'] [v, .s t] [v, .s (normRest u t)]
+  | types (p q : TStep) (v : TVal) (ts : List Nat) (hk : kindEq p q = true) (hw : FieldWF q v) (ht : ∀ t ∈ ts, t ≤ 65535) :
+      Fits [p, .typeList] [q, .typeList] [v, .nl ts] [v, .nl ts]
   | cons (p q : TStep) (v : TVal) (P Q : List TStep) (vs vs' : List TVal) (hk : kindEq p q = true) (hw : FieldWF q v)
       (h : Fits P Q vs vs') : Fits (p :: .blank :: P) (q :: .blank :: Q) (v :: vs) (v :: vs')
 
@@ -437,6 +414,32 @@ theorem rdata_last_tokens (zl : St) (w rest : Bytes) (hL : LS zl false true true
   obtain ⟨z, t, b, zl', zr, ze, ht, hs, hbv, hbe, _⟩ := stream_word_nl zl w rest false true true hL hw.2 hw.1
   obtain ⟨n1, n2, n3⟩ := nlWordTok_plain z w ze (Or.inl zr)
   exact ⟨t, b, zl', hs, by rw [ht]; exact n2, by rw [ht]; exact n3, by rw [ht]; exact n1, hbv, hbe⟩
+
+/-- a word, then ` T` for every type of a list, then the end of the line: the word's token, and behind it tokens from
+    which the type-bitmap loop reads the list -/
+theorem types_tokens (ts : List Nat) (hts : ∀ t ∈ ts, t ≤ 65535) (zl : St) (w rest : Bytes) (hL : LS zl false true true)
+    (hw : Word w) (acc : List Nat) :
+    ∃ t toks, stream zl (w ++ (typesText ts ++ 10 :: rest)) = t :: toks ∧ t.token = w ∧ t.err = false ∧ t.value = zString ∧
+      typeListParse toks acc = some (acc ++ ts) := by
+  induction ts generalizing zl w acc with
+  | nil =>
+    obtain ⟨tk, b, zl', hs, htk, hte, htv, hbv, hbe⟩ := rdata_last_tokens zl w rest hL hw
+    refine ⟨tk, _, by simpa [typesText] using hs, htk, hte, htv, ?_⟩
+    simp [typeListParse, hbe, hbv]
+  | cons x xs ih =>
+    obtain ⟨hxw, hxr⟩ := C05Y.printed_type_rdata x (hts x (by simp))
+    obtain ⟨t1, b1, zl1, hs1, htk1, hte1, htv1, hbv1, hbe1, hL1⟩ :=
+      rdata_word_tokens zl w (printType x ++ (typesText xs ++ 10 :: rest)) hL hw
+    obtain ⟨t2, toks, hs2, htk2, hte2, htv2, hp2⟩ := ih (fun t ht => hts t (by simp [ht])) zl1 (printType x) hL1 hxw (acc ++ [x])
+    refine ⟨t1, b1 :: t2 :: toks, ?_, htk1, hte1, htv1, ?_⟩
+    · have e : typesText (x :: xs) ++ 10 :: rest = 32 :: (printType x ++ (typesText xs ++ 10 :: rest)) := by
+        simp [typesText]
+      rw [e, hs1, hs2]
+    · have z1 : ¬ (zBlank = zNewline ∨ zBlank = zEOF) := by decide
+      have z2 : ¬ (zString = zNewline ∨ zString = zEOF) := by decide
+      have z3 : ¬ (zString = zBlank) := by decide
+      simp only [typeListParse, hbe1, hbv1, hte2, htv2, htk2, hxr, hp2, Bool.false_eq_true, ↓reduceIte, z1, z2, z3,
+        List.append_assoc, List.singleton_append]
 
 /-- **printers and parsers are inverse through the lexer**: for plans that belong together and values that fit them,
     the parser reads from the printed RDATA text — behind the type and its blank, up to the end of the line — exactly
@@ -530,6 +533,14 @@ theorem text_roundtrip (P Q : List TStep) (vals vals' : List TVal) (hf : Fits P 
       simp [printPlan], ?_⟩
     rw [List.append_assoc, List.cons_append, hs1, hs2, hq t1 _ _ acc htk1 hte1 htv1]
     simp [parsePlan, endingToString, hbv1, hbe1, htv2, hte2, hbv2, htk2, zNewline, zString, zBlank]
+  | types p q v ts hk hw hts =>
+    obtain ⟨w, hp, hword, hq⟩ := field_word p q v hk hw origin
+    obtain ⟨t1, toks, hs, htk, hte, htv, hpar⟩ := types_tokens ts hts zl w rest hL hword []
+    refine ⟨w ++ typesText ts, by
+      rw [printPlan_cons p _ _ _ w (hp _), printPlan_cons .typeList [] [.nl ts] [] (typesText ts) (by simp [printStep])]
+      simp [printPlan], ?_⟩
+    rw [List.append_assoc, hs, hq t1 _ _ acc htk hte htv]
+    simp [parsePlan, hpar]
   | cons p q v P Q vs vs' hk hw h ih =>
     obtain ⟨w, hp, hword, hq⟩ := field_word p q v hk hw origin
     obtain ⟨txt', hp', _⟩ := ih zl hL acc
